@@ -3,18 +3,25 @@
 (* meta-model (rendered by harness/run_c04.py). Every combination is a case.                      *)
 EXTENDS Integers, Sequences, FiniteSets, Json, IOUtils, SequencesExt, TLC
 Plants == {"stray_assign", "stray_expr", "bad_import", "early_class", "bad_annotation", "inv_no_desc", "unknown_base",
-           "bad_lambda", "bad_lambda_nonascii", "unknown_type", "bad_func_body", "enum_bad_literal"}
+           "bad_lambda", "bad_lambda_nonascii", "fstring_lambda", "unknown_type", "bad_func_body", "enum_bad_literal"}
 \* plants that may stand on line 1 of the file (nothing before them, not even the imports)
 Line1Plants == {"stray_assign", "stray_expr", "bad_import", "early_class"}
 \* plants with an indented body that can be indented by a tab instead of four blanks
 BodyPlants == Plants \ {"stray_assign", "stray_expr", "bad_import"}
 Places == {"line1", "after_header", "middle", "last"}
-PrefixKinds == {"none", "blank2", "comment", "comment_nonascii_tab", "docstring_multiline"}
+\* text before everything else. The last five exist because of what a line is NOT: form feed, vertical tab,
+\* FS/GS/RS, NEL, U+2028 and U+2029 are line boundaries for str.splitlines() but not for Python's tokenizer, ast,
+\* or any editor; and a first line that is blank-with-spaces or an indented comment lies before the first token.
+PrefixKinds == {"none", "blank2", "comment", "comment_nonascii_tab", "docstring_multiline",
+                "formfeed_line", "unicode_seps_docstring", "ctrl_seps_comment", "ws_first_line", "indented_comment_first"}
+\* what follows the classes: both mandatory assignments, only the XML namespace, or none (their absence is
+\* reported by errors WITHOUT a construct, rendered after the located ones in the same report)
+Tails == {"full", "no_version", "none"}
 Gaps == {0, 1, 3}
 Eols == {"lf", "crlf"}
 Cases ==
-    {[plant |-> p, where |-> w, prefix |-> x, gap |-> g, eol |-> e, tab |-> t] :
-        p \in Plants, w \in Places, x \in PrefixKinds, g \in Gaps, e \in Eols, t \in BOOLEAN}
+    {[plant |-> p, where |-> w, prefix |-> x, gap |-> g, eol |-> e, tab |-> t, tail |-> tl] :
+        p \in Plants, w \in Places, x \in PrefixKinds, g \in Gaps, e \in Eols, t \in BOOLEAN, tl \in Tails}
 Valid(c) == /\ (c.where = "line1" => c.plant \in Line1Plants /\ c.prefix = "none" /\ c.gap = 0)
             /\ (c.plant = "early_class" => c.where = "line1")
             /\ (c.tab => c.plant \in BodyPlants)
